@@ -3,8 +3,7 @@
   Model: `Cellml/Heap/Model.lean` (the mutators of componententity / component / model / variable .cpp after the
   repairs), tied by engine `heap` on full graph dumps after every operation of generated histories.
   Partial: memory safety on bad arguments is runtime behaviour the model cannot exhibit — the model says "refused,
-  unchanged", the harness observes crashes; `replaceComponent` / `replaceUnits` are modelled and compared but not
-  yet covered by the step theorem.
+  unchanged", the harness observes crashes.  `replaceComponent` / `replaceUnits` are operations of the step theorem.
 -/
 import Cellml.Heap.Equiv
 namespace Cellml.Props.C09
@@ -39,6 +38,26 @@ theorem C09_addChild_acyclic (look : Look) (h : Heap) (c : Nat) (k : CK) (x : Na
     (hx : (∀ z, h.parent z ≠ some x) ∨ h.parent c = none) : Acyclic (addChild look h c k x).1 :=
   addChild_acyclic look h c k x ha hne hx
 
+theorem C09_replaceComponent_acyclic (look : Look) (fuel : Nat) (h : Heap) (c i x : Nat) (ha : Acyclic h) :
+    Acyclic (replaceComponent look fuel h c i x).1 := replaceComponent_acyclic look fuel h c i x ha
+
+/-- C09-1' : the two replacements keep the invariant whatever the replacement's previous owner was (the same
+    container included: the child to replace is located again after the replacement has left the list) -/
+theorem C09_replace (look : Look) (fuel : Nat) (h : Heap) (c i x : Nat) (hi : Inv kindOf h) :
+    (kindOf x = .comp → Inv kindOf (replaceComponent look fuel h c i x).1) ∧
+    (kindOf x = .units → Inv kindOf (replaceUnits look h c i x).1) :=
+  ⟨replaceComponent_inv look fuel h c i x hi, replaceUnits_inv look h c i x hi⟩
+
+/-- C09-4' (frame): replacing the units at an index by units that nothing owns touches those two objects and that list only -/
+theorem C09_replaceUnits_exact (look : Look) (h : Heap) (m i x old : Nat) (hg : (h.kids m .units)[i]? = some old)
+    (hxo : x ≠ old) (hp : h.parent x = none) :
+    (replaceUnits look h m i x).2 = true ∧
+    (replaceUnits look h m i x).1.kids m .units = (h.kids m .units).set i x ∧
+    (replaceUnits look h m i x).1.parent x = some m ∧ (replaceUnits look h m i x).1.parent old = none ∧
+    (∀ z, z ≠ x → z ≠ old → (replaceUnits look h m i x).1.parent z = h.parent z) ∧
+    (∀ c' k', ¬ (c' = m ∧ k' = .units) → (replaceUnits look h m i x).1.kids c' k' = h.kids c' k') :=
+  replaceUnits_exact look h m i x old hg hxo hp
+
 /-- C09-4 (frame): removing an object that *is* a child affects exactly that object — it is found as itself, only
     its parent pointer and the one list change -/
 theorem C09_remove_child_exact (look : Look) (h : Heap) (c : Nat) (k : CK) (x : Nat) (hx : x ∈ h.kids c k) :
@@ -72,7 +91,8 @@ theorem C09_release (h : Heap) (v : Nat) (hi : Inv kindOf h) (hnd : EqNodup h) (
 /-! non-vacuity: a concrete valid history (two models, a component moved between them, a variable, an equivalence) -/
 def exKind (x : Nat) : CK := if x < 5 then .comp else if x < 8 then .var else if x < 10 then .units else .reset
 def exLook : Look := fun _ _ _ => false
-def exOps : List Op := [.addToModel 0 2, .addComponent 2 3, .addVariable 3 5, .addToModel 1 3, .addVariable 2 6, .addEquivalence 5 6, .addEquivalence 5 7, .release 7, .removeAllEquivalences 5, .removePtr 1 .comp 3]
+def exOps : List Op := [.addToModel 0 2, .addComponent 2 3, .addVariable 3 5, .addToModel 1 3, .addVariable 2 6, .addEquivalence 5 6, .addEquivalence 5 7, .release 7, .removeAllEquivalences 5, .addToModel 0 4,
+  .replaceComponent 0 0 4, .addUnits 0 8, .addUnits 1 9, .replaceUnits 0 0 9, .removePtr 1 .comp 3]
 example : AllValid exKind exLook (fun _ => "") 16 empty exOps := by
   simp only [exOps, AllValid, Valid, step, exKind]
   decide
